@@ -6,7 +6,7 @@ use crate::json::J;
 use crate::rng::Rng;
 use fst::automaton::{AlwaysMatch, Automaton, Str};
 use fst::raw::{self, Fst};
-use fst::{map, set, IntoStreamer, Map, Set, Streamer};
+use fst::{map, set, Map, Set, Streamer};
 use std::collections::BTreeMap;
 
 #[derive(Clone, Copy, Debug, PartialEq)]
